@@ -249,7 +249,7 @@ def _observe(c):
     return d, dict(c.get_symrefs())
 
 
-def h_disk_step(eng, opk=0):
+def h_disk_step(eng, opk=0, sib=0):
     """one operation on the real files backend from every small loose/packed/symbolic state equals the map model"""
     st = {
         RA: ST_RA[eng.choice("s_ra", len(ST_RA))],
@@ -258,6 +258,9 @@ def h_disk_step(eng, opk=0):
     }
     rab = ST_RAB[eng.choice("s_rab", len(ST_RAB))]
     st[RAB] = rab
+    # a bystander whose name merely extends refs/heads/a textually (no file/directory collision): never affected, never a
+    # reason to refuse
+    st[b"refs/heads/ab"] = [(None, None), (B, None), (None, B)][sib]
     eng.assume(not (rab != (None, None) and st[RA] != (None, None)))      # a and a/b never coexist (git refuses)
     ops = ["set_if_equals", "add_if_new", "remove_if_equals", "setitem", "delitem", "set_symbolic_ref", "pack_refs"]
     op = ops[opk]
@@ -366,12 +369,12 @@ def checks(tier):
     q = ("quick", "thorough")
     r = "dulwich.refs."
     return _base_checks(tier) + [
-        KCheck("C16b.disk_step", h_disk_step, parts=[{"opk": k} for k in range(7)],
+        KCheck("C16b.disk_step", h_disk_step, parts=[{"opk": k, "sib": s_} for k in range(7) for s_ in range(3)],
                encoded=[r + "DiskRefsContainer.set_if_equals", r + "DiskRefsContainer.add_if_new",
                         r + "DiskRefsContainer.remove_if_equals", r + "DiskRefsContainer.set_symbolic_ref",
                         r + "DiskRefsContainer.pack_refs/add_packed_refs/_remove_packed_ref", r + "RefsContainer.__setitem__/__delitem__/follow",
                         r + "read_packed_refs/write_packed_refs", "dulwich.file.GitFile"],
-               bounds="one operation (7 kinds, every name in {HEAD, refs/heads/a, refs/heads/a/b, refs/tags/t}, old in {None,A,B,0^40}, "
+               bounds="one operation (7 kinds, every name in {HEAD, refs/heads/a, refs/heads/a/b, refs/tags/t}, with a bystander refs/heads/ab absent, loose or packed; old in {None,A,B,0^40}, "
                       "new in {A,B}) from every state in which each ref is absent / loose / packed / loose-shadowing-packed / symbolic "
                       "and HEAD is attached, detached or absent; real temporary directory; by induction over steps this covers "
                       "operation sequences of any length over this state space (closure is asserted: the post-state is again read "
